@@ -560,4 +560,5 @@ def rule_WT4(ctx, tier):
             rr.ok("%s: adapters %s in both directions" % (name.split("::")[-1], sorted(x.split("::")[-1] for x in se_ad)), nontrivial=bool(se_ad))
     if n < 11:
         rr.fail("floor:wire-messages", "only %d wire messages with generated deserialisers found (11 confirmed)" % n)
+    rr.require_floor(18, "WT4 instances")
     return rr
